@@ -46,6 +46,7 @@ package keeper
 //@ ghost valHas map[Bytes]bool
 //@ ghost valStake map[Bytes]int
 //@ ghost valJailedG map[Bytes]bool
+//@ ghost valStatusG map[Bytes]int
 //@ ghost valOutNil map[Bytes]bool
 //@ ghost valOut map[Bytes]Bytes
 
@@ -54,6 +55,7 @@ package keeper
 //@   modifies bigv
 //@   ensures found == valHas[bytes(addr)]
 //@   ensures found ==> validator.StakedTokens.i != nil && fresh(validator.StakedTokens.i) && bigv[validator.StakedTokens.i] == valStake[bytes(addr)] && bytes(validator.Address) == bytes(addr)
+//@   ensures found ==> validator.Status == valStatusG[bytes(addr)]
 //@   ensures found ==> validator.Jailed == valJailedG[bytes(addr)] && (validator.OutputAddress == nil) == valOutNil[bytes(addr)] && (validator.OutputAddress != nil ==> bytes(validator.OutputAddress) == valOut[bytes(addr)])
 //@   ensures forall p int {bigv[p]} :: isold(p) ==> bigv[p] == old(bigv[p])
 
@@ -128,7 +130,7 @@ package keeper
 // simpleSlash: removes min(amount, stake) (never negative) from the record, burns exactly what
 // was removed, and force-unstakes (jail + queue) a node left below the minimum stake.
 //@ func (Keeper).simpleSlash
-//@   props C25,C12
+//@   props C25,C19,C12
 //@   modifies all
 //@   ensures [request] slashReq == old(bigv[amount.i])
 //@   ensures [at-most-stake] removeN != old(removeN) ==> removeN == old(removeN) + 1 && removedAmt == max(0, min(old(bigv[amount.i]), old(valStake[bytes(addr)]))) && removedAmt <= old(valStake[bytes(addr)]) && removedAmt >= 0
@@ -169,35 +171,49 @@ package keeper
 // call event: the record handed to SetValidator (the write of the node record)
 //@ ghost lastSetVal x/nodes/types.Validator
 //@ ghost lastSetValStake int
+//@ ghost setValN int
+//@ ghost lastSetValAddr Bytes
 //@ func (Keeper).SetValidator
 //@   trusted call event only: records the validator written (store + codec effects are not modelled here)
-//@   modifies lastSetVal, lastSetValStake
-//@   ensures lastSetVal == validator && lastSetValStake == old(bigv[validator.StakedTokens.i])
+//@   modifies lastSetVal, lastSetValStake, setValN, lastSetValAddr
+//@   ensures lastSetVal == validator && lastSetValStake == old(bigv[validator.StakedTokens.i]) && setValN == old(setValN) + 1 && lastSetValAddr == bytes(validator.Address)
 
 //@ func (Keeper).deleteValidatorFromStakingSet
 //@   trusted KV-store effect only (index maintenance, see C21): no Go object visible to the caller is modified
 //@ func (Keeper).deleteValidatorForChains
 //@   trusted KV-store effect only (index maintenance, see C21): no Go object visible to the caller is modified
+//@ ghost delValN int
+//@ ghost lastDelVal Bytes
 //@ func (Keeper).DeleteValidator
-//@   trusted KV-store effect only: no Go object visible to the caller is modified
+//@   trusted call event only: records the address whose record is deleted (KV-store effect not modelled)
+//@   modifies delValN, lastDelVal
+//@   ensures delValN == old(delValN) + 1 && lastDelVal == bytes(addr)
 //@ func (Keeper).SetStakedValidatorByChains
 //@   trusted KV-store effect only (index maintenance, see C21): no Go object visible to the caller is modified
 //@ func (Keeper).ResetValidatorSigningInfo
 //@   trusted KV-store effect only: no Go object visible to the caller is modified
+// ---- C19: pool movements (bank operations through the AuthKeeper interface are call events) ----
 //@ func (Keeper).coinsFromUnstakedToStaked
-//@   trusted bank transfer (see C19): KV-store effect only, no Go object visible to the caller is modified
+//@   props C19,C12
+//@   modifies bankA2MN, bankA2MOK, bankA2MFrom, bankA2MTo, bankA2MCoins, bigv
+//@   ensures [bigv-kept] forall p int {bigv[p]} :: isold(p) ==> bigv[p] == old(bigv[p])
+//@   ensures [moves-amount] result == nil ==> bankA2MN == old(bankA2MN) + 1 && bankA2MOK && bankA2MFrom == bytes(address) && bankA2MTo == "staked_tokens_pool" && singleAmt(bankA2MCoins) == old(bigv[amount.i]) && old(bigv[amount.i]) >= 0
+//@   ensures [or-nothing] result != nil ==> bankA2MN == old(bankA2MN) || (bankA2MN == old(bankA2MN) + 1 && !bankA2MOK)
 
 // EditStakeValidator: the record written keeps address, key, jailed flag, status and unstaking
 // time; the stake is the larger of current and requested; output address / delegators follow
 // the feature flags; chains and service URL are taken from the message.
 //@ func (Keeper).EditStakeValidator
-//@   props C23,C12
+//@   props C23,C19,C12
 //@   modifies all
 //@   ensures [identity] result == nil ==> lastSetVal.Address == currentValidator.Address && lastSetVal.PublicKey == currentValidator.PublicKey && lastSetVal.Jailed == currentValidator.Jailed && lastSetVal.Status == currentValidator.Status && lastSetVal.UnstakingCompletionTime == currentValidator.UnstakingCompletionTime
 //@   ensures [stake] result == nil ==> lastSetValStake == max(old(bigv[currentValidator.StakedTokens.i]), old(bigv[amount.i]))
 //@   ensures [output-pre-ncust] result == nil && !(featAt("NCUST", ctxHeight(ctx)) || tm3()) ==> lastSetVal.OutputAddress == currentValidator.OutputAddress
 //@   ensures [output-kept] result == nil && (featAt("NCUST", ctxHeight(ctx)) || tm3()) && !(featAt("OEDIT", ctxHeight(ctx)) || tm3()) && currentValidator.OutputAddress != nil ==> lastSetVal.OutputAddress == currentValidator.OutputAddress
 //@   ensures [delegators-kept] result == nil && !((featAt("NCUST", ctxHeight(ctx)) || tm3()) && (featAt("RewardDelegators", ctxHeight(ctx)) || tm3())) ==> lastSetVal.RewardDelegators == currentValidator.RewardDelegators
+//@   ensures [bump-to-pool] result == nil && old(bigv[amount.i]) > old(bigv[currentValidator.StakedTokens.i]) ==> bankA2MN == old(bankA2MN) + 1 && bankA2MFrom == pkAddr(signer) && singleAmt(bankA2MCoins) == old(bigv[amount.i]) - old(bigv[currentValidator.StakedTokens.i])
+//@   ensures [no-bump-no-coins] result == nil && old(bigv[amount.i]) <= old(bigv[currentValidator.StakedTokens.i]) ==> bankA2MN == old(bankA2MN)
+//@   ensures [no-outflow] bankSendN == old(bankSendN) && bankBurnN == old(bankBurnN)
 
 // ---- C25 / C12: unjailing --------------------------------------------------------------------
 //@ pure nMinStake(c Iface) int
@@ -239,3 +255,102 @@ package keeper
 //@   ensures [jailed] err == nil ==> old(valJailedG[bytes(msg.ValidatorAddr)])
 //@   ensures [jail-elapsed] err == nil ==> old(siHas[bytes(msg.ValidatorAddr)]) && ctxBlockTimeNs(ctx) >= old(siJailedUntil[bytes(msg.ValidatorAddr)])
 //@   ensures [complete] old(valHas[bytes(msg.ValidatorAddr)]) && unjailSigner(bytes(msg.Signer), bytes(msg.ValidatorAddr), old(valOutNil[bytes(msg.ValidatorAddr)]), old(valOut[bytes(msg.ValidatorAddr)])) && old(valStake[bytes(msg.ValidatorAddr)]) >= nMinStake(ctx) && old(valJailedG[bytes(msg.ValidatorAddr)]) && old(siHas[bytes(msg.ValidatorAddr)]) && ctxBlockTimeNs(ctx) >= old(siJailedUntil[bytes(msg.ValidatorAddr)]) ==> err == nil
+
+// the address unstaked coins are returned to: the output address when one is set, else the operator
+//@ func (Keeper).GetValidatorOutputAddress
+//@   props C24,C19
+//@   modifies bigv
+//@   ensures [bigv-kept] forall p int {bigv[p]} :: isold(p) ==> bigv[p] == old(bigv[p])
+//@   ensures [found] result1 == old(valHas[bytes(operatorAddress)])
+//@   ensures [output-or-operator] result1 ==> bytes(result0) == ite(old(valOutNil[bytes(operatorAddress)]), bytes(operatorAddress), old(valOut[bytes(operatorAddress)]))
+
+//@ func (Keeper).coinsFromStakedToUnstaked
+//@   props C19,C24,C12
+//@   modifies bankSendN, bankSendTo, bankSendFrom, bankSendCoins, bankSendOK, bigv
+//@   ensures [bigv-kept] forall p int {bigv[p]} :: isold(p) ==> bigv[p] == old(bigv[p])
+//@   ensures [returns-stake] bankSendN == old(bankSendN) + 1 && bankSendFrom == "staked_tokens_pool" && singleAmt(bankSendCoins) == old(bigv[validator.StakedTokens.i])
+//@   ensures [to-output-address] old(valHas[bytes(validator.Address)]) ==> bankSendTo == ite(old(valOutNil[bytes(validator.Address)]), bytes(validator.Address), old(valOut[bytes(validator.Address)]))
+
+// staking a new node: the pool receives exactly the amount the record is credited with
+//@ func (Keeper).StakeValidator
+//@   props C19,C12
+//@   modifies all
+//@   ensures [new-stake] result == nil && !(ctxAfterUpgrade(ctx) && old(valHas[bytes(validator.Address)]) && old(valStatusG[bytes(validator.Address)]) == 2) ==> bankA2MN == old(bankA2MN) + 1 && bankA2MFrom == pkAddr(signer) && singleAmt(bankA2MCoins) == old(bigv[amount.i]) && setValN != old(setValN) && lastSetValStake == old(bigv[validator.StakedTokens.i]) + old(bigv[amount.i]) && lastSetVal.Status == 2 && lastSetVal.Address == validator.Address
+//@   ensures [no-outflow] bankSendN == old(bankSendN) && bankBurnN == old(bankBurnN)
+
+// ---- C24: leaving the staked state -----------------------------------------------------------
+// begin-unstake: only a staked node (jailed nodes only after the non-custodial upgrade)
+//@ func (Keeper).ValidateValidatorBeginUnstaking
+//@   props C24,C12
+//@   ensures [staked] result == nil ==> validator.Status == 2
+//@   ensures [jailed-only-after-upgrade] result == nil && validator.Jailed ==> featAt("NCUST", ctxHeight(ctx)) || tm3()
+// a request only marks the node as waiting: nothing else changes until the session boundary
+//@ func (Keeper).WaitToBeginUnstakingValidator
+//@   props C24,C12
+//@   modifies valWaiting
+//@   ensures [only-marks] result == nil
+// the node record becomes Unstaking, keeps its stake, completes at block time + unstaking time; no coins move
+//@ pure nUnstakingTime(c Iface) int
+//@ func (Keeper).GetParams
+//@   trusted parameter getter
+//@   pure_fn
+//@   ensures result.UnstakingTime == nUnstakingTime(ctx)
+//@ func (Keeper).BeginUnstakingValidator
+//@   props C24,C19,C12
+//@   modifies lastSetVal, lastSetValStake, setValN, lastSetValAddr
+//@   ensures [record] setValN == old(setValN) + 1 && lastSetVal.Status == 1 && lastSetVal.Address == validator.Address && lastSetValStake == old(bigv[validator.StakedTokens.i]) && lastSetVal.Jailed == validator.Jailed && lastSetVal.OutputAddress == validator.OutputAddress
+//@   ensures [due-time] timeIsZero(validator.UnstakingCompletionTime) ==> unixNano(lastSetVal.UnstakingCompletionTime) == ctxBlockTimeNs(ctx) + nUnstakingTime(ctx)
+//@   ensures [due-time-kept] !timeIsZero(validator.UnstakingCompletionTime) ==> lastSetVal.UnstakingCompletionTime == validator.UnstakingCompletionTime
+//@ func (Keeper).ValidateValidatorFinishUnstaking
+//@   props C24,C12
+//@   ensures [unstaking] result == nil ==> validator.Status == 1
+//@   ensures [jailed-only-after-upgrade] result == nil && validator.Jailed ==> featAt("NCUST", ctxHeight(ctx)) || tm3()
+
+//@ func (Keeper).deleteUnstakingValidator
+//@   trusted KV-store effect only (unstaking queue maintenance, see C21): no Go object visible to the caller is modified
+//@ func (Keeper).SetUnstakingValidator
+//@   trusted KV-store effect only (unstaking queue maintenance, see C21): no Go object visible to the caller is modified
+//@ func (Keeper).DeleteWaitingValidator
+//@   trusted KV-store effect only: clears the waiting marker
+//@   modifies valWaiting
+//@ func (Keeper).GetWaitingValidators
+//@   trusted iterator over the waiting markers + record lookups: the records returned are stored records
+//@   modifies bigv
+//@   ensures forall p int {bigv[p]} :: isold(p) ==> bigv[p] == old(bigv[p])
+//@   ensures forall i int :: 0 <= i && i < len(validators) ==> validators[i].StakedTokens.i != nil
+
+// the mature queue is read from the queue prefix up to (and including) the key of the given time
+//@ func (Keeper).unstakingValidatorsIterator
+//@   props C24,C12
+//@   modifies itPos, itN, itKey, itVal, itStore, itLo, itHi, itHiNil, itRev
+//@   ensures [open] result0 != nil && itPos[result0] == 0 && itN[result0] >= 0
+//@   ensures [up-to-given-time] result1 == nil ==> !itRev[result0] && itLo[result0] == bytes(global(types.UnstakingValidatorsKey)) && !itHiNil[result0] && itHi[result0] == cat(cat(bytes(global(types.UnstakingValidatorsKey)), timeKey(unixNano(endTime))), b1(0))
+
+// the stake goes back only for a node that is Unstaking (precondition, checked at every call
+// site), exactly once, to its output address (or operator address when none is set)
+//@ func (Keeper).FinishUnstakingValidator
+//@   props C24,C19,C12
+//@   requires validator.Status == 1
+//@   modifies bankSendN, bankSendTo, bankSendFrom, bankSendCoins, bankSendOK, lastSetVal, lastSetValStake, setValN, lastSetValAddr, bigv
+//@   ensures [bigv-kept] forall p int {bigv[p]} :: isold(p) ==> bigv[p] == old(bigv[p])
+//@   ensures [returns-stake-once] bankSendN == old(bankSendN) + 1 && bankSendFrom == "staked_tokens_pool" && singleAmt(bankSendCoins) == old(bigv[validator.StakedTokens.i])
+//@   ensures [to-output-address] old(valHas[bytes(validator.Address)]) ==> bankSendTo == ite(old(valOutNil[bytes(validator.Address)]), bytes(validator.Address), old(valOut[bytes(validator.Address)]))
+//@   ensures [record-unstaked] setValN == old(setValN) + 1 && lastSetVal.Status == 0
+//@   ensures [record-emptied] old(bigv[validator.StakedTokens.i]) >= 0 ==> lastSetValStake == 0 && lastSetVal.Address == validator.Address
+
+// every mature entry: looked up, validated (Unstaking) and only then finished, then deleted; the
+// queue is read up to the BLOCK time; the sweep never takes coins from an account or burns
+//@ func (Keeper).unstakeAllMatureValidators
+//@   props C24,C19,C12
+//@   modifies all
+//@   ensures [no-inflow-no-burn] bankA2MN == old(bankA2MN) && bankBurnN == old(bankBurnN) && burnN == old(burnN)
+//@   loop 0 invariant bankA2MN == old(bankA2MN) && bankBurnN == old(bankBurnN) && burnN == old(burnN)
+//@   loop 0 invariant unstakingValidatorsIterator != nil && 0 <= itPos[unstakingValidatorsIterator] && itPos[unstakingValidatorsIterator] <= itN[unstakingValidatorsIterator]
+//@   loop 1 invariant bankA2MN == old(bankA2MN) && bankBurnN == old(bankBurnN) && burnN == old(burnN)
+
+// session boundary: every waiting node that is still staked starts unstaking; nothing is paid out
+//@ func (Keeper).ReleaseWaitingValidators
+//@   props C24,C12
+//@   modifies all
+//@   ensures [no-coins-move] bankA2MN == old(bankA2MN) && bankSendN == old(bankSendN) && bankBurnN == old(bankBurnN) && burnN == old(burnN)
+//@   loop 0 invariant bankA2MN == old(bankA2MN) && bankSendN == old(bankSendN) && bankBurnN == old(bankBurnN) && burnN == old(burnN)
